@@ -47,8 +47,8 @@ func runC15(c *Ctx) {
 	s.ruleDAHint("DA.HINT")
 	c.floor("DA.HINT", 4)
 	s.ruleDRWidth("DR.WIDTH")
-	c.floor("DR.WIDTH", 1)
+	c.floor("DR.WIDTH", 0)
 	s.ruleDR("DR")
-	c.floor("DR.SHORT", 1)
+	c.floor("DR.SHORT", 0)
 	c.floor("DR.LINE", 0)
 }
